@@ -1,1 +1,254 @@
-/-! Property theorems for C11 (stub: none yet). -/
+import TxdbusModel.Proofs.Net.EndToEnd
+import TxdbusModel.Proofs.Net.Link
+import TxdbusModel.Net.OldBus
+/-!
+# C11 - a call through a proxy reaches the remote method and returns what it returned
+
+Model: `TxdbusModel/Net/Compose.lean` - N clients and the bus at message level; the scheduler is the
+list of steps (`call`, `toBus`, `toClient`, `resolve`).  The behaviour of every exported method
+invocation is part of the step that triggers it, so the theorems quantify over ALL worlds (exported
+declarations, encodability, validator), ALL numbers of clients, ALL calls, ALL behaviours and ALL
+schedules; there is no bound on anything.  Quiescence (all queues empty, no unfired Deferred) replaces
+a fairness assumption.
+
+* `link_refinement`       a byte FIFO cut into arbitrary reads, framed and parsed, is a FIFO of messages
+                          (from the codec laws proved by C04 `binary_partition_independent`,
+                          `frames_of_messages` and C03 `parse_marshal`; see Proofs/Net/Link.lean)
+* `call_stage_invariant`  in every reachable state every issued call holds exactly one token (one of
+                          seven stages) and every item in every queue belongs to an issued call and
+                          sits where that call's record says; replies carry the logged answer
+* `C11_end_to_end`        in every quiescent reachable state every issued call to an attached client is
+                          completed exactly once, answered exactly once, its completion is the
+                          conversion of that answer; it was invoked exactly once on the exporter with
+                          equal arguments iff the exporter's declaration accepts it
+* `C11_returns_what_it_returned`   what that completion is, in the words of the property: the returned
+                          value / the list of returned values / None, or RemoteError mirroring the
+                          exception (and the two documented conventions: a single struct comes back
+                          wrapped in a list, an invalid error name is replaced)
+-/
+namespace Txdbus.Net
+
+variable {V : Type}
+
+/-! ## 1. the link assumption -/
+
+/-- **C11.1**  For every codec satisfying the framing/parsing laws, every list of messages and every way
+of cutting their byte stream into reads (empty reads, several messages per read, cuts inside a message):
+the receiver completes exactly the sent messages, in order, each once, normalised, with nothing left in
+its buffer; and after any prefix of the reads it has completed a prefix of them. -/
+theorem link_refinement {M B : Type} (C : Codec M B) (h : C.Laws) (ms : List M) (reads : List (List B))
+    (hcut : reads.flatten = C.stream ms) :
+    C.recv [] reads = (ms.map C.norm, []) ∧
+    ∀ k, ∃ later, (C.recv [] (reads.take k)).1 ++ later = ms.map C.norm := by
+  have total : C.recv [] reads = (ms.map C.norm, []) := by
+    rw [C.recv_flatten h, hcut, C.feed_stream h]
+  refine ⟨total, fun k => ?_⟩
+  have hsplit : reads.flatten = (reads.take k).flatten ++ (reads.drop k).flatten := by
+    rw [← List.flatten_append, List.take_append_drop]
+  have := C.recv_flatten h [] reads
+  rw [total, hsplit, h.split] at this
+  refine ⟨(C.feed (C.feed [] (reads.take k).flatten).2 (reads.drop k).flatten).1, ?_⟩
+  rw [C.recv_flatten h]
+  exact (congrArg Prod.fst this).symm
+
+/-- The laws are satisfiable: messages are their own single "byte". -/
+example : (⟨fun m => [m], fun buf x => (x, buf), id⟩ : Codec Nat Nat).Laws :=
+  ⟨fun buf x y => by simp, fun m => by simp, fun buf => by simp⟩
+
+/-! ## 2. the stage invariant -/
+
+/-- **C11.2**  Every reachable state satisfies the invariant `Inv` (Proofs/Net/Invariant.lean): for any
+world, any number of clients, any first serial numbers and any list of steps. -/
+theorem call_stage_invariant (w : World V) (n : Nat) (first : Nat → Nat) (steps : List (Step V)) :
+    Inv w (run w (Net.init n first) steps) :=
+  (Inv.init w n first).run steps
+
+/-- The counting part spelled out: the seven stage counters of an issued call add up to one - it is in
+exactly one stage - and the answers the exporter logged for it are as many as there are replies in
+flight plus completions (so nothing else in any queue can complete it). -/
+theorem call_in_exactly_one_stage (w : World V) (n : Nat) (first : Nat → Nat) (steps : List (Step V))
+    (a : Nat) (r : CallRec V) (hr : r ∈ ((run w (Net.init n first) steps).cl a).issued) :
+    let net := run w (Net.init n first) steps
+    let s := stages net a r
+    s.callUp + s.callDown + s.dropped + s.executing + s.replyUp + s.replyDown + s.completed = 1 ∧
+    answersFor net a r = s.replyUp + s.replyDown + s.completed ∧
+    invocationsFor net a r = s.executing + resultsFor net a r := by
+  have inv := call_stage_invariant w n first steps
+  exact ⟨inv.tok a r hr, inv.ans_cnt a r hr, inv.inv_cnt a r hr⟩
+
+/-- The "nothing else" part spelled out for the queue that matters: every reply waiting in a client's
+`down` queue answers a call that client issued, and carries `replyOf` an answer the call's destination
+logged for exactly that caller and serial; every call waiting there carries the true sender. -/
+theorem queues_hold_only_issued_calls (w : World V) (n : Nat) (first : Nat → Nat) (steps : List (Step V))
+    (j : Nat) (m : Msg V) (hm : m ∈ ((run w (Net.init n first) steps).cl j).down) :
+    DownOK w (run w (Net.init n first) steps) j m :=
+  (call_stage_invariant w n first steps).down_ok j m hm
+
+/-! ## 3. end to end -/
+
+theorem step_n (w : World V) (net : Net V) (st : Step V) : (step w net st).n = net.n := by
+  cases st <;> simp only [step] <;> split <;> try rfl
+  · rename_i c hc
+    rw [busStep_eq]
+    cases (net.cl c).up with
+    | nil => rfl
+    | cons m rest =>
+      simp only
+      cases (m.withSender c).dest with
+      | none => rfl
+      | some d => simp only; split <;> rfl
+  · unfold clientStep
+    cases (net.cl _).down <;> rfl
+  · unfold resolveStep
+    cases takeExec _ (net.cl _).exec with
+    | none => rfl
+    | some pr => rfl
+
+theorem run_n (w : World V) (net : Net V) (steps : List (Step V)) : (run w net steps).n = net.n := by
+  induction steps generalizing net with
+  | nil => rfl
+  | cons st rest ih =>
+    have := ih (step w net st)
+    simp only [run, List.foldl] at this ⊢
+    rw [this, step_n]
+
+/-- **C11.3**  In every quiescent reachable state, every call issued by an attached client `a` to an
+attached client `r.dest` is `Completed` (Proofs/Net/EndToEnd.lean): its Deferred fired exactly once with
+some outcome `o`; the exporter logged exactly one answer `ans` for it, which is the verdict of
+`handleMethodCallMessage` for this call; `o` is `_cbCvtReply` applied to the reply built from `ans`; and
+the exported method was invoked exactly once, with the path, member and arguments of the call, if the
+exporter's declaration accepts the call, and not at all otherwise. -/
+theorem C11_end_to_end (w : World V) (n : Nat) (first : Nat → Nat) (steps : List (Step V))
+    (hq : (run w (Net.init n first) steps).Quiescent)
+    (a : Nat) (ha : a < n) (r : CallRec V) (hr : r ∈ ((run w (Net.init n first) steps).cl a).issued)
+    (hd : r.dest < n) :
+    ∃ o ans, Completed w (run w (Net.init n first) steps) a r o ans := by
+  have inv := call_stage_invariant w n first steps
+  have hn : (run w (Net.init n first) steps).n = n := run_n w _ steps
+  exact inv.completed hq (by rw [hn]; exact ha) hr (by rw [hn]; exact hd)
+
+/-! ## 4. what the completion is -/
+
+/-- **C11.4**  The completion of an accepted call whose proxy declares the same return signature as the
+exporter (`retSig = some sigOut`: explicit declaration, or introspection by C15), in terms of what the
+method did:
+
+1. it returned an object that is not a list/tuple (one declared return value that is not a struct,
+   encodable): the completion is that value;
+2. it returned a list/tuple for one declared non-struct return value: the completion is that object;
+3. it returned a sequence of values for several (or no) declared return values: the completion is the
+   list of these values;
+4. nothing is declared: the completion is None, whatever was returned;
+5. it raised an exception: the completion is RemoteError with the exception's DBus name (its
+   `dbusErrorName`, else `org.txdbus.PythonException.<class>`) and its text - provided that name is a
+   valid error name; otherwise the name is `org.txdbus.InvalidErrorName` (documented);
+6. one declared return value that IS a struct: the completion is the one-element list holding it (the
+   convention of `_cbCvtReply` that the upstream tests pin down). -/
+theorem C11_returns_what_it_returned (w : World V) (sigOut : String) (nret : Nat) :
+    (∀ v, sigOut ≠ "" → sigOut.toList.head? ≠ some '(' → w.encErr sigOut [v] = none →
+      outcomeOf (some sigOut) (replyOf w (.result sigOut nret (.value (.obj v)))) = .single v) ∧
+    (∀ self elems, sigOut ≠ "" → sigOut.toList.head? ≠ some '(' → nret = 1 → w.encErr sigOut [self] = none →
+      outcomeOf (some sigOut) (replyOf w (.result sigOut nret (.value (.seq self elems)))) = .single self) ∧
+    (∀ self e1 e2 rest, sigOut ≠ "" → nret ≠ 1 → w.encErr sigOut (e1 :: e2 :: rest) = none →
+      outcomeOf (some sigOut) (replyOf w (.result sigOut nret (.value (.seq self (e1 :: e2 :: rest))))) =
+        .many (e1 :: e2 :: rest)) ∧
+    (∀ r, sigOut = "" → outcomeOf (some sigOut) (replyOf w (.result sigOut nret (.value r))) = .none) ∧
+    (∀ e : Exc, w.validErrorName (e.dbusName.getD ("org.txdbus.PythonException." ++ e.cls)) = true →
+      outcomeOf (some sigOut) (replyOf w (.result sigOut nret (.raised e))) =
+        .remoteError (e.dbusName.getD ("org.txdbus.PythonException." ++ e.cls)) e.text) ∧
+    (∀ v, sigOut.toList.head? = some '(' → w.encErr sigOut [v] = none →
+      outcomeOf (some sigOut) (replyOf w (.result sigOut nret (.value (.obj v)))) = .many [v]) := by
+  refine ⟨?_, ?_, ?_, ?_, ?_, ?_⟩
+  · intro v h1 h2 h3
+    simp [outcomeOf, replyOf, valueReply, replyBody, cvtReply, h1, h2, h3]
+  · intro self elems h1 h2 h3 h4
+    simp [outcomeOf, replyOf, valueReply, replyBody, cvtReply, h1, h2, h3, h4]
+  · intro self e1 e2 rest h1 h2 h3
+    simp [outcomeOf, replyOf, valueReply, replyBody, cvtReply, h1, h2, h3]
+  · intro r h1
+    simp [outcomeOf, replyOf, valueReply, cvtReply, h1]
+  · intro e h
+    cases hdn : e.dbusName with
+    | none =>
+      simp only [hdn, Option.getD] at h
+      simp [outcomeOf, replyOf, errorReply, hdn, h]
+    | some nm =>
+      simp only [hdn, Option.getD] at h
+      simp [outcomeOf, replyOf, errorReply, hdn, h]
+  · intro v h2 h3
+    have h1 : sigOut ≠ "" := by
+      intro e; rw [e] at h2; simp at h2
+    simp [outcomeOf, replyOf, valueReply, replyBody, cvtReply, h1, h2, h3]
+
+/-! ## 5. the hypotheses are satisfiable; the unrepaired bus violates the property -/
+
+def exIface : Iface :=
+  { name := "org.t.I", methods := [{ name := "echo", sigIn := "v", sigOut := "v", nargs := 1, nret := 1 },
+                                   { name := "slow", sigIn := "", sigOut := "ss", nargs := 0, nret := 2 }] }
+
+/-- client 2 exports `/o`; every body encodes; every error name is valid -/
+def exWorld : World Nat :=
+  { exports := fun j => if j = 2 then [{ path := "/o", ifaces := [exIface] }] else [],
+    introspect := fun _ _ => none, managed := fun _ _ => 0, encErr := fun _ _ => none,
+    validErrorName := fun _ => true }
+
+def exProxy : Proxy := { dest := 2, path := "/o", ifaces := [exIface] }
+
+/-- Clients 0 and 1 (both start at serial 1: the serials collide) call client 2 concurrently; the second
+call returns a Deferred that fires after the first call has completed; the replies overtake each other. -/
+def exSteps : List (Step Nat) :=
+  [ .call 0 (.viaProxy exProxy none "echo" [7]),
+    .call 1 (.viaProxy exProxy (some "org.t.I") "slow" []),
+    .toBus 1, .toBus 0,
+    .toClient 2 .deferred,
+    .toClient 2 (.now (.value (.obj 8))),
+    .toBus 2, .toClient 0 .deferred,
+    .resolve 2 0 (.value (.seq 99 [5, 6])),
+    .toBus 2, .toClient 1 .deferred ]
+
+def exNet : Net Nat := run exWorld (Net.init 3 (fun _ => 1)) exSteps
+
+/-- The example reaches a quiescent state with two issued calls to an attached client: the hypotheses of
+`C11_end_to_end` are met by a non-trivial instance ... -/
+example : exNet.Quiescent ∧
+    (exNet.cl 0).issued.map (fun r => (r.serial, r.dest)) = [(1, 2)] ∧
+    (exNet.cl 1).issued.map (fun r => (r.serial, r.dest)) = [(1, 2)] := by
+  refine ⟨?_, by decide, by decide⟩
+  intro j hj
+  match j, hj with
+  | 0, _ => decide
+  | 1, _ => decide
+  | 2, _ => decide
+  | k + 3, h => exact absurd h (by simp [exNet, run_n, Net.init])
+
+/-- ... and its conclusion reads: each call completed once with what its method returned, each method
+ran once with the call's arguments and the true sender. -/
+example : (exNet.cl 0).completions = [(1, .single 8)] ∧ (exNet.cl 1).completions = [(1, .many [5, 6])] ∧
+    (exNet.cl 2).invocations =
+      [{ sender := some 1, serial := 1, path := "/o", iface := "org.t.I", member := "slow", args := [] },
+       { sender := some 0, serial := 1, path := "/o", iface := "org.t.I", member := "echo", args := [7] }] := by
+  decide
+
+/-- The model of the bus BEFORE the repair (Net/OldBus.lean), with a re-encoding that raises for the body
+of a `v` call (the implementation: argument `(1, 2**40)`, sent as `(ix)`, re-inferred as `ai`): the call
+of client 0 is issued to an attached client, the network becomes quiescent, and the call is neither
+invoked nor completed.  This is the replay corpus/C11/bus-reencode-variant-struct.json. -/
+theorem prefix_model_violates :
+    let reenc : String → List Nat → Option (List Nat) := fun sig body => if sig = "v" then none else some body
+    let net := runOld reenc exWorld (Net.init 3 (fun _ => 1)) [.call 0 (.viaProxy exProxy none "echo" [7]), .toBus 0]
+    (∀ j, j < 3 → (net.cl j).up = [] ∧ (net.cl j).down = [] ∧ (net.cl j).exec = []) ∧
+    (net.cl 0).issued.map (fun r => (r.serial, r.dest)) = [(1, 2)] ∧
+    (net.cl 0).completions = [] ∧ (net.cl 2).invocations = [] := by
+  decide
+
+end Txdbus.Net
+
+#print axioms Txdbus.Net.link_refinement
+#print axioms Txdbus.Net.call_stage_invariant
+#print axioms Txdbus.Net.call_in_exactly_one_stage
+#print axioms Txdbus.Net.queues_hold_only_issued_calls
+#print axioms Txdbus.Net.step_n
+#print axioms Txdbus.Net.run_n
+#print axioms Txdbus.Net.C11_end_to_end
+#print axioms Txdbus.Net.C11_returns_what_it_returned
+#print axioms Txdbus.Net.prefix_model_violates
